@@ -6,6 +6,7 @@ program and shrinking never invalidates operands.  Ownership rules of the API ar
 construction; what is generated and what is not is listed in DESIGN.md Appendix B.
 """
 import ctypes
+import re
 import math
 import struct
 
@@ -24,6 +25,10 @@ KEY_POOL = [b"a", b"A", b"b", b"B", b"k", b"K", b"key", b"KEY", b"Key", b"", b"0
             b"[", b"{", b"@", b"`", b"]", b"}", b"^", b"~", b"_", b"\x7f", b"\\", b"|", b"k[", b"K{", b"\xc3\x89", b"0", b"\x10", b"1", b"\x11"]
 STR_POOL = [b"", b"x", b"hello", b"a longer string value", b"\"quoted\"\\", b"\n\t", b"\xc3\xa9\xe2\x82\xac", b"0123456789" * 3, b"s", b"xy"]
 NUM_POOL = [0.0, 1.0, -1.0, 0.5, 2147483647.0, 2147483648.0, -2147483649.0, 1e15, 1.5e300, -0.0, 3.25, 1e-7, 42.0, 123456789.125]
+
+
+SCALAR_REF_RE = re.compile(r"\(([ntfN])(c?)r")
+CONST_FLAG_RE = re.compile(r"\(([ntfNSRAO])c")
 
 
 class MNode:
@@ -154,7 +159,8 @@ class World:
 
     def _dump(self, out, n, follow, stack):
         tc = n.t
-        out.append("(" + tc + ("c" if (n.key_const and n.key is not None) else "") + ("r" if n.is_ref else ""))
+        # (whether a "reference" to a number or literal carries the reference bit is nobody's promise: it owns nothing either way)
+        out.append("(" + tc + ("c" if (n.key_const and n.key is not None) else "") + ("r" if n.is_ref and tc not in "ntfN" else ""))
         if n.key is not None:
             out.append("k" + model.c_bytes(n.key).hex() + ";")
         if tc == "N":
@@ -197,7 +203,15 @@ class World:
         for r in self.roots:
             follow = 0 if self.has_dangling(r) else 1
             got, flags, _, _ = lib.dump(r.ptr, follow, 1)
-            want = self.expected_dump(r, bool(follow))
+            got = CONST_FLAG_RE.sub(r"(\1", SCALAR_REF_RE.sub(r"(\1\2", got))
+            want = CONST_FLAG_RE.sub(r"(\1", self.expected_dump(r, bool(follow)))
+            # the constant-key flag is judged by what it means, not by who the model thinks set it: a flagged name is borrowed (not a
+            # block of the library's allocator), an unflagged name is owned (a live block).  Keeping a caller's constant, copying
+            # it, or pointing at a constant of the library's own are all fine.
+            bad = lib.tree_name_flag_conflicts(r.ptr)
+            if bad:
+                raise Violation("after %s: %d member name(s) whose constant-key flag contradicts where the name lives (flagged but allocated by the "
+                                "library, or not flagged but not a live block)" % (what, bad), key="const-flag")
             if flags & 32 and self.keyless_member(r):
                 # copies of object views over key-less items legitimately hold key-less members
                 flags &= ~32
